@@ -635,6 +635,27 @@ class Builder(ExprMixin):
         return outs
 
     def st_For(self, st, preds):
+        it = st.iter
+        if isinstance(it, ast.Call) and isinstance(it.func, ast.Name) and it.func.id == "iter" and len(it.args) == 2 and not it.keywords:
+            # for x in iter(f, sentinel): body  ==  while True: x' = f(); if x' == sentinel: [orelse]; break; x = x'; body
+            tmp = f"__iter_{st.lineno}_{st.col_offset}"
+            is_none = isinstance(it.args[1], ast.Constant) and it.args[1].value is None
+            test = ast.Compare(left=ast.Name(id=tmp, ctx=ast.Load()), ops=[ast.Is() if is_none else ast.Eq()], comparators=[it.args[1]])
+            stop = ast.If(test=test, body=list(st.orelse) + [ast.Break()], orelse=[])
+            loop = ast.While(test=ast.Constant(value=True),
+                             body=[ast.Assign(targets=[ast.Name(id=tmp, ctx=ast.Store())], value=ast.Call(func=it.args[0], args=[], keywords=[])), stop,
+                                   ast.Assign(targets=[st.target], value=ast.Name(id=tmp, ctx=ast.Load()))] + list(st.body), orelse=[])
+            for n in ast.walk(loop):
+                if not hasattr(n, "lineno"):
+                    ast.copy_location(n, st)
+                if not hasattr(n, "end_lineno") or getattr(n, "end_lineno", None) is None:
+                    n.end_lineno, n.end_col_offset = st.lineno, st.col_offset
+            for n in ast.walk(loop):
+                for c in ast.iter_child_nodes(n):
+                    if not hasattr(c, "_parent") or c in (stop, loop) or isinstance(c, ast.Assign) and c in loop.body:
+                        c._parent = n
+            loop._parent = getattr(st, "_parent", None)
+            return self.st_While(loop, preds)
         itv, preds = self.ev(st.iter, preds)
         itv, preds = self.iterate(itv, preds)
         head = self.join("loop-head")
